@@ -60,17 +60,17 @@ Proof. intros H. unfold clamp. destruct (x <? 0) eqn:E; lia. Qed.
 
 Definition wf_region (r : rdata) (N : Z) : Prop := 0 <= rstart r <= N /\ 0 <= rend r <= N.
 
-Lemma build_base_seq r sq feats s' fs' par :
+Lemma build_base_seq r sq feats s' fs' :
   wf_region r (zlen sq) -> rstart r <> rend r ->
-  build_base r sq feats = Ok (s', fs', par) -> s' = expected_seq r sq.
+  build_base r sq feats = Ok (s', fs') -> s' = expected_seq r sq.
 Proof.
   intros [Hs He] Hne H. unfold build_base in H. unfold expected_seq, out_len.
   set (N := zlen sq) in *.
   destruct (crosses r) eqn:Ec.
   - unfold crosses in Ec. unfold build_cross in H. fold N in H.
     destruct (mapM _ (slice_feats feats 0 (clamp N (rend r)))) eqn:E1; cbn [bind] in H; [|discriminate].
-    destruct (mapM _ feats) eqn:E2; cbn [bind] in H; [|discriminate].
-    injection H as <- _ _.
+    destruct (mapM _ (filter (cross_kept r) feats)) eqn:E2; cbn [bind] in H; [|discriminate].
+    injection H as <- _.
     rewrite !clamp_id by lia.
     rewrite pyslice_map by (fold N; lia). rewrite pyslice_map by (fold N; lia).
     replace (Z.to_nat (N - rstart r + rend r)) with (Z.to_nat (N - rstart r) + Z.to_nat (rend r - 0))%nat by lia.
@@ -81,7 +81,7 @@ Proof.
       rewrite map_map. apply map_ext_in. intros i Hi. apply in_seq in Hi. f_equal. f_equal.
       replace (rstart r + Z.of_nat (Z.to_nat (N - rstart r) + i)) with (Z.of_nat i + 1 * N) by lia.
       rewrite Z.mod_add by lia. rewrite Z.mod_small by lia. lia.
-  - unfold crosses in Ec. injection H as <- _ _.
+  - unfold crosses in Ec. injection H as <- _.
     destruct (rstart r =? rend r) eqn:Eeq; [lia|].
     rewrite !clamp_id by lia. rewrite pyslice_map by (fold N; lia).
     apply map_ext_in. intros i Hi. apply in_seq in Hi. f_equal. f_equal.
@@ -90,17 +90,16 @@ Qed.
 
 (* ---------- structure of write_to_genbank ---------- *)
 Lemma write_unfold r sq feats o : write_to_genbank r sq feats = Ok o ->
-  exists s' fs' par c adjusted,
-    build_base r sq feats = Ok (s', fs', par) /\ make_ctx r (zlen sq) = Ok c /\
+  exists s' fs' c adjusted,
+    build_base r sq feats = Ok (s', fs') /\ make_ctx r (zlen sq) = Ok c /\
     mapM (adjust_feat c) fs' = Ok adjusted /\
-    o = mkOut s' adjusted (build_annotations r)
-              (restore (parent_after_adjust c par) (map floc feats)).
+    o = mkOut s' adjusted (build_annotations r) (restore feats (map floc feats)).
 Proof.
   unfold write_to_genbank. intros H.
-  destruct (build_base r sq feats) as [[[s' fs'] par]|] eqn:Eb; cbn [bind] in H; [|discriminate].
+  destruct (build_base r sq feats) as [[s' fs']|] eqn:Eb; cbn [bind] in H; [|discriminate].
   destruct (make_ctx r (zlen sq)) as [c|] eqn:Ec; cbn [bind] in H; [|discriminate].
   destruct (mapM (adjust_feat c) fs') as [adjusted|] eqn:Ea; cbn [bind] in H; [|discriminate].
-  injection H as <-. exists s', fs', par, c, adjusted. repeat split; first [assumption|reflexivity].
+  injection H as <-. exists s', fs', c, adjusted. repeat split; first [assumption|reflexivity].
 Qed.
 
 Lemma write_sequence r sq feats o :
@@ -108,7 +107,7 @@ Lemma write_sequence r sq feats o :
   write_to_genbank r sq feats = Ok o -> o_seq o = expected_seq r sq.
 Proof.
   intros Hwf Hne H. apply write_unfold in H.
-  destruct H as (s' & fs' & par & c & adjusted & Hb & _ & _ & ->). cbn [o_seq].
+  destruct H as (s' & fs' & c & adjusted & Hb & _ & _ & ->). cbn [o_seq].
   eapply build_base_seq; eassumption.
 Qed.
 
@@ -145,8 +144,8 @@ Proof.
   destruct (ftype f =? T_sub).
   { destruct (fq1 f); [discriminate|]. injection H as <-; repeat split; reflexivity. }
   destruct (ftype f =? T_motif).
-  { destruct (adjust_motif_opt (c_start c) (fl1 f)); cbn [bind] in H; [|discriminate].
-    destruct (adjust_motif_opt (c_start c) (fl2 f)); cbn [bind] in H; [|discriminate].
+  { destruct (adjust_motif_opt (c_start c) (c_len c) (fl1 f)); cbn [bind] in H; [|discriminate].
+    destruct (adjust_motif_opt (c_start c) (c_len c) (fl2 f)); cbn [bind] in H; [|discriminate].
     injection H as <-; repeat split; reflexivity. }
   injection H as <-; repeat split; reflexivity.
 Qed.
@@ -168,93 +167,27 @@ Lemma set_loc_twice f l l' : set_loc (set_loc f l) l' = set_loc f l'.
 Proof. reflexivity. Qed.
 
 (* ---------- the parent after the call ---------- *)
-Definition parent_rel (cross : bool) (f g : feat) : Prop :=
-  floc g = floc f /\ ftype g = ftype f /\ ftag g = ftag f /\
-  (cross && bridges (floc f) && adjustable f = false -> g = f).
-
-Lemma restore_rel cross c : forall feats par,
-  Forall2 (fun f (gb : feat * bool) =>
-             (snd gb = false /\ fst gb = f) \/
-             (snd gb = true /\ cross && bridges (floc f) = true /\ exists l, fst gb = set_loc f l)) feats par ->
-  Forall2 (parent_rel cross) feats (restore (parent_after_adjust c par) (map floc feats)).
+(* every feature of the extract is a copy, so the only thing that happens to the parent's features
+   is the final loop that puts the saved locations back *)
+Lemma restore_self : forall feats, restore feats (map floc feats) = feats.
 Proof.
-  induction 1 as [|f gb feats par Hh Ht IH]; [constructor|].
-  cbn [parent_after_adjust map restore]. constructor; [|exact IH].
-  unfold parent_rel. destruct gb as [g b]. cbn [fst snd] in *.
-  destruct Hh as [[-> ->]|[-> [Hcb [l ->]]]].
-  - cbn [floc ftype ftag set_loc]. repeat split; try reflexivity. intros _. apply set_loc_self.
-  - destruct (adjust_feat c (set_loc f l)) as [g|k] eqn:Ea.
-    + destruct (adjust_feat_keeps _ _ _ Ea) as (_ & Ety & Etg). cbn [ftype ftag set_loc] in Ety, Etg.
-      cbn [floc set_loc]. repeat split; try assumption.
-      intros Hg. rewrite Hcb in Hg. cbn [andb] in Hg.
-      assert (Ha : adjustable (set_loc f l) = false) by exact Hg.
-      assert (g = set_loc f l).
-      { pose proof (adjust_feat_other c _ Ha) as E2. congruence. }
-      subst g. rewrite set_loc_twice. apply set_loc_self.
-    + cbn [floc ftype ftag set_loc]. repeat split; try reflexivity. intros _.
-      rewrite set_loc_twice. apply set_loc_self.
+  induction feats as [|f fs IH]; [reflexivity|]. cbn [map restore]. rewrite IH, set_loc_self. reflexivity.
 Qed.
 
-Lemma Forall2_imp {A B} (R1 R2 : A -> B -> Prop) : (forall a b, R1 a b -> R2 a b) ->
-  forall l1 l2, Forall2 R1 l1 l2 -> Forall2 R2 l1 l2.
-Proof. intros H l1 l2 HF. induction HF; constructor; auto. Qed.
-
-Lemma Forall2_eq {A} (l1 l2 : list A) : Forall2 (fun a b => b = a) l1 l2 -> l2 = l1.
-Proof. induction 1; [reflexivity|]. subst. reflexivity. Qed.
-
-Lemma build_base_parent r sq feats s' fs' par :
-  build_base r sq feats = Ok (s', fs', par) ->
-  Forall2 (fun f (gb : feat * bool) =>
-             (snd gb = false /\ fst gb = f) \/
-             (snd gb = true /\ crosses r && bridges (floc f) = true /\ exists l, fst gb = set_loc f l))
-          feats par.
-Proof.
-  unfold build_base. destruct (crosses r) eqn:Ec; intros H.
-  - unfold build_cross in H.
-    destruct (mapM _ (slice_feats feats 0 _)) eqn:E1; cbn [bind] in H; [|discriminate].
-    destruct (mapM _ feats) as [par0|] eqn:E2; cbn [bind] in H; [|discriminate].
-    injection H as _ _ <-. apply mapM_Forall2 in E2.
-    eapply Forall2_imp; [|exact E2]. intros f gb Hf. cbn beta in Hf.
-    destruct (bridges (floc f)) eqn:Eb.
-    + destruct (offset_location (floc f) (- rstart r) (Some (zlen sq))) as [l|] eqn:Eo; cbn [bind] in Hf; [|discriminate].
-      injection Hf as <-. right. cbn [fst snd andb]. repeat split. exists l. reflexivity.
-    + injection Hf as <-. left. split; reflexivity.
-  - injection H as _ _ <-. induction feats as [|f fs IH]; cbn [map]; constructor; [|exact IH].
-    left. split; reflexivity.
-Qed.
-
-Lemma write_parent r sq feats o : write_to_genbank r sq feats = Ok o ->
-  Forall2 (parent_rel (crosses r)) feats (o_parent o).
+Lemma write_parent_unchanged r sq feats o : write_to_genbank r sq feats = Ok o -> o_parent o = feats.
 Proof.
   intros H. apply write_unfold in H.
-  destruct H as (s' & fs' & par & c & adjusted & Hb & _ & _ & ->). cbn [o_parent].
-  apply restore_rel. eapply build_base_parent. exact Hb.
+  destruct H as (s' & fs' & c & adjusted & _ & _ & _ & ->). cbn [o_parent]. apply restore_self.
 Qed.
 
 Lemma write_parent_locations r sq feats o : write_to_genbank r sq feats = Ok o ->
   map floc (o_parent o) = map floc feats /\ map ftype (o_parent o) = map ftype feats
   /\ map ftag (o_parent o) = map ftag feats.
-Proof.
-  intros H. apply write_parent in H. induction H as [|f g fs gs Hr _ IH]; [repeat split; reflexivity|].
-  destruct Hr as (E1 & E2 & E3 & _). destruct IH as (I1 & I2 & I3). cbn [map].
-  rewrite E1, E2, E3, I1, I2, I3. repeat split; reflexivity.
-Qed.
+Proof. intros H. rewrite (write_parent_unchanged _ _ _ _ H). repeat split; reflexivity. Qed.
 
-Lemma write_parent_unchanged r sq feats o : write_to_genbank r sq feats = Ok o ->
-  (crosses r = false \/ forallb (fun f => negb (adjustable f)) (filter (fun f => bridges (floc f)) feats) = true) ->
-  o_parent o = feats.
-Proof.
-  intros H Hg. apply write_parent in H. apply Forall2_eq.
-  assert (Hall : forall f, In f feats -> crosses r && bridges (floc f) && adjustable f = false).
-  { intros f Hin. destruct Hg as [->|Hg]; [reflexivity|].
-    destruct (bridges (floc f)) eqn:Eb; [|rewrite andb_false_r; reflexivity].
-    rewrite forallb_forall in Hg. specialize (Hg f). rewrite filter_In in Hg.
-    specialize (Hg (conj Hin Eb)). destruct (adjustable f); [discriminate|]. rewrite andb_false_r. reflexivity. }
-  clear Hg. induction H as [|f g fs gs Hr _ IH]; [constructor|].
-  constructor.
-  - destruct Hr as (_ & _ & _ & Hr). apply Hr. apply Hall. left. reflexivity.
-  - apply IH. intros f' Hin. apply Hall. right. exact Hin.
-Qed.
+Lemma Forall2_imp {A B} (R1 R2 : A -> B -> Prop) : (forall a b, R1 a b -> R2 a b) ->
+  forall l1 l2, Forall2 R1 l1 l2 -> Forall2 R2 l1 l2.
+Proof. intros H l1 l2 HF. induction HF; constructor; auto. Qed.
 
 (* ---------- renumbering ---------- *)
 Lemma renum_props l : l <> [] ->
@@ -293,7 +226,8 @@ Qed.
 
 (* what adjust_feat does to the numbers, by feature type *)
 Lemma adjust_numbers c f g : adjust_feat c f = Ok g ->
-  (ftype f = T_region -> fq1 g = map (renum (c_first_cc c)) (fq1 f) /\ fq2 g = fq2 f) /\
+  (ftype f = T_region -> fq1 g = map (renum (c_first_cc c)) (fq1 f) /\
+                         fq2 g = map (renum (c_first_sub c)) (fq2 f)) /\
   (ftype f = T_cand -> exists n q, fq1 f = n :: q /\ fq1 g = [renum (c_first_cc c) n] /\
                                    fq2 g = map (renum (c_first_cluster c)) (fq2 f)) /\
   (ftype f = T_proto \/ ftype f = T_core ->
@@ -304,7 +238,7 @@ Proof.
   unfold adjust_feat, T_region, T_cand, T_proto, T_core, T_sub, T_motif. intros H.
   destruct (ftype f =? 1) eqn:E1.
   { assert (ftype f = 1) by lia. repeat split; try (intros; lia); try (intros [?|?]; lia).
-    - destruct (fq1 f) eqn:Eq; injection H as <-; [rewrite Eq|]; reflexivity.
+    - destruct (fq1 f) eqn:Eq; injection H as <-; reflexivity.
     - destruct (fq1 f) eqn:Eq; injection H as <-; reflexivity. }
   destruct (ftype f =? 2) eqn:E2.
   { assert (ftype f = 2) by lia. repeat split; try (intros; lia); try (intros [?|?]; lia).
@@ -335,6 +269,20 @@ Proof.
   intros Tr Tc Hr Hc Hq.
   destruct (adjust_numbers _ _ _ Hr) as (Hr1 & _). destruct (Hr1 Tr) as (Er & _).
   destruct (adjust_numbers _ _ _ Hc) as (_ & Hc1 & _). destruct (Hc1 Tc) as (n' & q' & E1 & E2 & _).
+  rewrite Hq in E1. injection E1 as <- <-. split; [|exact E2].
+  rewrite Er. rewrite in_map_iff. split.
+  - intros Hin. exists n. split; [reflexivity|exact Hin].
+  - intros (x & Hx & Hin). unfold renum in Hx. assert (x = n) by lia. subst x. exact Hin.
+Qed.
+
+Lemma refs_region_sub c fr fs gr gs n q :
+  ftype fr = T_region -> ftype fs = T_sub ->
+  adjust_feat c fr = Ok gr -> adjust_feat c fs = Ok gs ->
+  fq1 fs = n :: q -> (In n (fq2 fr) <-> In (renum (c_first_sub c) n) (fq2 gr)) /\ fq1 gs = [renum (c_first_sub c) n].
+Proof.
+  intros Tr Ts Hr Hs Hq.
+  destruct (adjust_numbers _ _ _ Hr) as (Hr1 & _). destruct (Hr1 Tr) as (_ & Er).
+  destruct (adjust_numbers _ _ _ Hs) as (_ & _ & _ & Hs1). destruct (Hs1 Ts) as (n' & q' & E1 & E2).
   rewrite Hq in E1. injection E1 as <- <-. split; [|exact E2].
   rewrite Er. rewrite in_map_iff. split.
   - intros Hin. exists n. split; [reflexivity|exact Hin].
@@ -413,8 +361,8 @@ Lemma write_linear_features r sq feats o :
           (filter (inside (rstart r) (rend r)) feats) (o_feats o).
 Proof.
   intros [Hs He] Hc H. apply write_unfold in H.
-  destruct H as (s' & fs' & par & c & adjusted & Hb & _ & Ha & ->). cbn [o_feats].
-  unfold build_base in Hb. rewrite Hc in Hb. injection Hb as _ <- _.
+  destruct H as (s' & fs' & c & adjusted & Hb & _ & Ha & ->). cbn [o_feats].
+  unfold build_base in Hb. rewrite Hc in Hb. injection Hb as _ <-.
   rewrite !clamp_id in Ha by lia. apply adjusted_rel in Ha.
   eapply Forall2_trans_rel; [|apply slice_rel|exact Ha].
   intros f g h (E1 & T1 & G1) (E2 & T2 & G2). unfold same_id. rewrite E2, E1, T2, T1, G2, G1. repeat split.
@@ -467,25 +415,19 @@ Proof.
     exists (y :: ra), rb. repeat split; [|exact Hb]. cbn [mapM]. rewrite Ef, Ha. reflexivity.
 Qed.
 
-Lemma cross_rel (r : rdata) (N : Z) : forall feats par,
-  Forall2 (fun f (gb : feat * bool) =>
-     (if bridges (floc f)
-      then do l <- offset_location (floc f) (- rstart r) (Some N); Ok (set_loc f l, true)
-      else Ok (f, false)) = Ok gb) feats par ->
-  Forall2 (fun f g => offset_location (floc f) (- rstart r) (Some N) = Ok (floc g) /\ same_id f g)
-          (filter (fun f => bridges (floc f)) feats) (map fst (filter snd par)).
+Lemma cross_rel (r : rdata) (N : Z) : forall fs gs,
+  mapM (fun f => do l <- offset_location (floc f) (- rstart r) (Some N); Ok (set_loc f l)) fs = Ok gs ->
+  Forall2 (fun f g => offset_location (floc f) (- rstart r) (Some N) = Ok (floc g) /\ same_id f g) fs gs.
 Proof.
-  induction 1 as [|f gb feats par Hh _ IH]; [constructor|].
-  cbn [filter]. destruct (bridges (floc f)) eqn:Eb.
-  - destruct (offset_location (floc f) (- rstart r) (Some N)) as [l|] eqn:Eo; cbn [bind] in Hh; [|discriminate].
-    injection Hh as <-. cbn [snd filter map fst]. constructor; [|exact IH].
-    cbn [floc set_loc]. unfold same_id. cbn [ftype ftag set_loc]. repeat split; try reflexivity. exact Eo.
-  - injection Hh as <-. cbn [snd]. exact IH.
+  intros fs gs H. apply mapM_Forall2 in H. eapply Forall2_imp; [|exact H].
+  intros f g Hf. cbn beta in Hf.
+  destruct (offset_location (floc f) (- rstart r) (Some N)) as [l|] eqn:Eo; cbn [bind] in Hf; [|discriminate].
+  injection Hf as <-. cbn [floc set_loc]. unfold same_id. cbn [ftype ftag set_loc]. repeat split; reflexivity.
 Qed.
 
 (* a region that crosses the origin: features before the origin (moved by -start), then the
-   origin-crossing features of the record (offset_location by -start around the ring), then the
-   features after the origin (offset_location by N - start) *)
+   origin-crossing features of the record that lie within the region (offset_location by -start
+   around the ring), then the features after the origin (offset_location by N - start) *)
 Lemma write_crossing_features r sq feats o :
   wf_region r (zlen sq) -> crosses r = true -> write_to_genbank r sq feats = Ok o ->
   let N := zlen sq in
@@ -493,22 +435,22 @@ Lemma write_crossing_features r sq feats o :
     Forall2 (fun f g => floc g = shift_loc (floc f) (- rstart r) /\ same_id f g)
             (filter (inside (rstart r) N) feats) ga /\
     Forall2 (fun f g => offset_location (floc f) (- rstart r) (Some N) = Ok (floc g) /\ same_id f g)
-            (filter (fun f => bridges (floc f)) feats) gb /\
+            (filter (cross_kept r) feats) gb /\
     Forall2 (fun f g => offset_location (shift_loc (floc f) (- 0)) (N - rstart r) (Some N) = Ok (floc g) /\ same_id f g)
             (filter (inside 0 (rend r)) feats) gc.
 Proof.
   intros [Hs He] Hc H N. apply write_unfold in H.
-  destruct H as (s' & fs' & par & c & adjusted & Hb & _ & Ha & ->). cbn [o_feats].
+  destruct H as (s' & fs' & c & adjusted & Hb & _ & Ha & ->). cbn [o_feats].
   unfold build_base in Hb. rewrite Hc in Hb. unfold build_cross in Hb. fold N in Hb.
   destruct (mapM _ (slice_feats feats 0 (clamp N (rend r)))) as [post|] eqn:E1; cbn [bind] in Hb; [|discriminate].
-  destruct (mapM _ feats) as [par0|] eqn:E2; cbn [bind] in Hb; [|discriminate].
-  injection Hb as _ <- _. rewrite !clamp_id in * by lia.
+  destruct (mapM _ (filter (cross_kept r) feats)) as [cross|] eqn:E2; cbn [bind] in Hb; [|discriminate].
+  injection Hb as _ <-. rewrite !clamp_id in * by lia.
   apply mapM_app in Ha. destruct Ha as (ga & gbc & -> & Ha & Hbc).
   apply mapM_app in Hbc. destruct Hbc as (gb & gc & -> & Hgb & Hgc).
   exists ga, gb, gc. split; [reflexivity|]. split; [|split].
   - apply adjusted_rel in Ha. eapply Forall2_trans_rel; [|apply slice_rel|exact Ha].
     intros f g h (E1' & T1 & G1) (E2' & T2 & G2). unfold same_id. rewrite E2', E1', T2, T1, G2, G1. repeat split.
-  - apply adjusted_rel in Hgb. apply mapM_Forall2 in E2. apply (cross_rel r N) in E2.
+  - apply adjusted_rel in Hgb. apply (cross_rel r N) in E2.
     eapply Forall2_trans_rel; [|exact E2|exact Hgb].
     intros f g h (E1' & T1 & G1) (E2' & T2 & G2). unfold same_id. rewrite E2', T2, T1, G2, G1. repeat split. exact E1'.
   - apply adjusted_rel in Hgc. apply mapM_Forall2 in E1.
@@ -558,7 +500,7 @@ Lemma write_crossing_same_bases r sq feats o :
   exists ga gb gc, o_feats o = ga ++ gb ++ gc /\
     Forall2 (same_bases (- rstart r)) (filter (inside (rstart r) N) feats) ga /\
     Forall2 (fun f g => offset_location (floc f) (- rstart r) (Some N) = Ok (floc g) /\ same_id f g)
-            (filter (fun f => bridges (floc f)) feats) gb /\
+            (filter (cross_kept r) feats) gb /\
     Forall2 (same_bases (N - rstart r)) (filter (inside 0 (rend r)) feats) gc.
 Proof.
   intros Hwf Hc H Hfe N.
@@ -612,37 +554,94 @@ Proof.
   rewrite Z.eqb_refl. cbn [negb rev app]. f_equal. f_equal. f_equal; lia.
 Qed.
 
-(* ---------- witnesses of the recorded findings ---------- *)
+(* the same feature lies inside the extract when the region contains it: b <= end *)
+Lemma offset_cross_forward_inside r N a b st :
+  wf_region r N -> crosses r = true -> in_wrapped_region r [mkPart a N st; mkPart 0 b st] = true ->
+  0 < b -> a < N -> rstart r <= a ->
+  0 <= a - rstart r /\ N - rstart r + b <= out_len r N.
+Proof.
+  intros [Hs He] Hc Hin Hb Ha Hsa. unfold out_len. rewrite Hc. unfold crosses in Hc.
+  unfold in_wrapped_region in Hin. cbn [forallb ps pe] in Hin. lia.
+Qed.
+
+(* ---------- _adjust_motif on one part ---------- *)
+(* a part after the origin of an origin-crossing region is moved around the ring *)
+Lemma offset_single_wrap N a b start st :
+  0 <= a -> a < b -> b <= start -> start < N ->
+  offset_location [mkPart a b st] (- start) (Some N) = Ok [mkPart (a - start + N) (b - start + N) st].
+Proof.
+  intros H0 H1 H2 H3. unfold offset_location.
+  destruct (N =? 0) eqn:EN; [lia|]. destruct (- start =? 0) eqn:Eo; [lia|]. cbn [orb].
+  destruct (N <? 1) eqn:E1; [lia|].
+  replace (llen [mkPart a b st]) with (b - a + 0) by reflexivity.
+  destruct (b - a + 0 =? N) eqn:E2; [lia|].
+  replace (lstart [mkPart a b st]) with a by reflexivity.
+  replace (lend [mkPart a b st]) with b by reflexivity.
+  destruct ((0 <=? a + - start) && (a + - start <? b + - start) && (b + - start <=? N)) eqn:E3; [lia|].
+  unfold shifted. rewrite Eo. cbn [mapM ps pe pst].
+  destruct (negb (a + - start <? b + - start)) eqn:E4; [lia|]. cbn [orb bind flat_map app ps pe pst].
+  assert (M1 : (a + - start + N) mod N = a - start + N) by (apply Z.mod_small; lia).
+  assert (M2 : (b + - start - 1 + N) mod N = b - start + N - 1) by (rewrite Z.mod_small by lia; lia).
+  rewrite M1, M2.
+  destruct ((0 <=? a - start + N) && (a - start + N <? b - start + N - 1 + 1) && (b - start + N - 1 + 1 <=? N)) eqn:E5; [|lia].
+  cbn [app forallb ps pe]. rewrite E5. cbn [andb negb merge_adjacent rev app].
+  f_equal. f_equal. f_equal; lia.
+Qed.
+
+Lemma adjust_motif_post_origin N a b start st :
+  0 <= a -> a < b -> b <= start -> start < N ->
+  adjust_motif_loc start N [mkPart a b st] = Ok [mkPart (a - start + N) (b - start + N) st].
+Proof.
+  intros H0 H1 H2 H3. unfold adjust_motif_loc. cbn [mapM].
+  rewrite offset_single_wrap by assumption. reflexivity.
+Qed.
+
+(* a part at or after the region start (any region) is moved by -start *)
+Lemma adjust_motif_plain N a b start st :
+  0 <= start -> start <= a -> a < b -> b <= N -> b - a <> N ->
+  adjust_motif_loc start N [mkPart a b st] = Ok [mkPart (a - start) (b - start) st].
+Proof.
+  intros H0 H1 H2 H3 H4. unfold adjust_motif_loc. cbn [mapM].
+  rewrite (offset_plain [mkPart a b st] (- start) N).
+  - reflexivity.
+  - lia.
+  - discriminate.
+  - constructor; [unfold wf_part; cbn; lia|constructor].
+  - cbn. lia.
+  - cbn. lia.
+  - cbn. lia.
+Qed.
+
+(* ---------- the witnesses of the repaired findings, and of those that are still recorded ---------- *)
 Definition w_seq := [0; 1; 2; 3; 0; 1; 2; 3; 0; 1].
 Definition w_feat t tag l q1 q2 l1 l2 := mkFeat t tag l q1 q2 l1 l2.
 
 Definition w_region_feat q1 q2 := mkFeat T_region 0 [mkPart 8 10 1; mkPart 0 3 1] q1 q2 None None.
 Definition w_core := [mkPart 9 10 1; mkPart 0 1 1].
 
-(* F49: the parent's origin-crossing protocluster keeps the rewritten core_location *)
-Lemma parent_unchanged_refuted : exists r sq feats o,
+(* F49 (repaired): the extract holds the rewritten core_location, the parent's origin-crossing
+   protocluster keeps its own *)
+Lemma parent_unchanged_witness : exists r sq feats o,
   wf_region r (zlen sq) /\ crosses r = true /\
-  write_to_genbank r sq feats = Ok o /\ o_parent o <> feats /\ map floc (o_parent o) = map floc feats.
+  write_to_genbank r sq feats = Ok o /\ o_parent o = feats /\
+  map fl1 feats = [None; Some w_core] /\ map fl1 (o_feats o) = [None; Some [mkPart 1 3 1]].
 Proof.
   exists (mkR 8 3 [(1, [(1, w_core)])] []), w_seq,
          [w_region_feat [1] []; mkFeat T_proto 0 [mkPart 8 10 1; mkPart 0 3 1] [1] [] (Some w_core) None].
   eexists. split; [unfold wf_region; cbn; lia|]. split; [reflexivity|].
-  split; [vm_compute; reflexivity|]. split; [|reflexivity].
-  intros E. apply (f_equal (fun x => list_eqb feat_eqb x
-     [w_region_feat [1] []; mkFeat T_proto 0 [mkPart 8 10 1; mkPart 0 3 1] [1] [] (Some w_core) None])) in E.
-  vm_compute in E. discriminate.
+  split; [vm_compute; reflexivity|]. repeat split; reflexivity.
 Qed.
 
-(* F46: the region feature keeps subregion_numbers while the sub-region is renumbered *)
-Lemma subregion_refs_refuted : exists r sq feats o,
-  wf_region r (zlen sq) /\ crosses r = false /\ contiguous (rsubs r) = true /\
+(* F46 (repaired): the region feature's subregion_numbers follow the sub-region's new number *)
+Lemma subregion_refs_witness : exists r sq feats o,
+  wf_region r (zlen sq) /\ crosses r = false /\
   write_to_genbank r sq feats = Ok o /\
-  nums_of T_sub (o_feats o) = [1] /\ flat_map (fun f => if ftype f =? T_region then fq2 f else []) (o_feats o) = [2] /\
-  numbers_ok (o_feats o) = false.
+  nums_of T_sub (o_feats o) = [1] /\ flat_map (fun f => if ftype f =? T_region then fq2 f else []) (o_feats o) = [1] /\
+  numbers_ok (o_feats o) = true.
 Proof.
   exists (mkR 2 8 [] [2]), w_seq,
          [mkFeat T_region 0 [mkPart 2 8 1] [] [2] None None; mkFeat T_sub 0 [mkPart 3 6 1] [2] [] None None].
-  eexists. split; [unfold wf_region; cbn; lia|]. split; [reflexivity|]. split; [reflexivity|].
+  eexists. split; [unfold wf_region; cbn; lia|]. split; [reflexivity|].
   split; [vm_compute; reflexivity|]. repeat split; reflexivity.
 Qed.
 
@@ -657,24 +656,29 @@ Proof.
   split; [vm_compute; reflexivity|]. split; reflexivity.
 Qed.
 
-(* F47: leader_location of a prepeptide after the origin becomes negative *)
-Lemma motif_wrapped_refuted : exists r sq feats o,
+(* F47 (repaired): leader_location of a prepeptide after the origin is moved around the ring with the
+   feature itself *)
+Lemma motif_wrapped_witness : exists r sq feats o,
   wf_region r (zlen sq) /\ crosses r = true /\ write_to_genbank r sq feats = Ok o /\
-  map floc (o_feats o) = [[mkPart 3 5 1]] /\ map fl1 (o_feats o) = [Some [mkPart (-7) (-6) 1]].
+  map floc (o_feats o) = [[mkPart 3 5 1]] /\ map fl1 (o_feats o) = [Some [mkPart 3 4 1]].
 Proof.
   exists (mkR 8 3 [] [1]), w_seq, [mkFeat T_motif 0 [mkPart 1 3 1] [] [] (Some [mkPart 1 2 1]) None].
   eexists. split; [unfold wf_region; cbn; lia|]. split; [reflexivity|].
   split; [vm_compute; reflexivity|]. split; reflexivity.
 Qed.
 
-(* F48: an origin-crossing gene that is only partly inside the region is written all the same *)
-Lemma cross_feature_partial_refuted : exists r sq feats o,
+(* F48 (repaired): an origin-crossing gene that is only partly inside the region is left out, one
+   that is inside is written *)
+Lemma cross_feature_partial_witness : exists r sq feats o,
   wf_region r (zlen sq) /\ crosses r = true /\ write_to_genbank r sq feats = Ok o /\
-  out_len r (zlen sq) = 5 /\ map floc (o_feats o) = [[mkPart 8 10 1; mkPart 0 4 1]].
+  out_len r (zlen sq) = 5 /\ map ftag feats = [1; 2] /\ map ftag (o_feats o) = [2] /\
+  map floc (o_feats o) = [[mkPart 1 4 1]].
 Proof.
-  exists (mkR 8 3 [] [1]), w_seq, [mkFeat 7 1 [mkPart 6 10 1; mkPart 0 2 1] [] [] None None].
+  exists (mkR 8 3 [] [1]), w_seq,
+         [mkFeat 7 1 [mkPart 6 10 1; mkPart 0 2 1] [] [] None None;
+          mkFeat 7 2 [mkPart 9 10 1; mkPart 0 2 1] [] [] None None].
   eexists. split; [unfold wf_region; cbn; lia|]. split; [reflexivity|].
-  split; [vm_compute; reflexivity|]. split; reflexivity.
+  split; [vm_compute; reflexivity|]. repeat split; reflexivity.
 Qed.
 
 (* F51: start = end (the whole ring, cut at start) gives an empty extract *)
@@ -701,7 +705,8 @@ Qed.
 
 Lemma adjust_numbers_full c f g : adjust_feat c f = Ok g ->
   (floc g = floc f /\ ftype g = ftype f /\ ftag g = ftag f) /\
-  (ftype f = T_region -> fq1 g = map (renum (c_first_cc c)) (fq1 f) /\ fq2 g = fq2 f) /\
+  (ftype f = T_region -> fq1 g = map (renum (c_first_cc c)) (fq1 f) /\
+                         fq2 g = map (renum (c_first_sub c)) (fq2 f)) /\
   (ftype f = T_cand -> exists n q, fq1 f = n :: q /\ fq1 g = [renum (c_first_cc c) n] /\
                                    fq2 g = map (renum (c_first_cluster c)) (fq2 f)) /\
   (ftype f = T_proto \/ ftype f = T_core ->
